@@ -1239,6 +1239,10 @@ class SyncInterpreter(BaseInterpreter[TContext, TEvent]):
                 `MachineNode` or a factory that returns one.
         """
         # 🕵️ Determine mode (blocking vs. non-blocking) and service key
+        # 🛑 An actor spawned by the tail of a macrostep that was still in
+        #    flight when `stop()` ran would outlive it: nothing stops it later.
+        if self.status == "stopped":
+            return
         activation = (
             (owner_id, self._activation_serial.get(owner_id, 0))
             if owner_id is not None
